@@ -119,6 +119,11 @@ class Runner(object):
             inner = LocalFileStore(internal_dir, data_dir)
             if kind == "local_lru":
                 inner = LRUCacheStore(inner, num_elem=cache or 3)
+        elif kind == "dbfs":
+            # the DBFS store (commit type full) over the fake dbutils rooted next to the internal directory
+            from .fakedbutils import make_dbfs_store
+            os.makedirs(internal_dir + "_dbfs", exist_ok=True)
+            inner = make_dbfs_store(internal_dir + "_dbfs", "FULL")
         else:
             raise ValueError(kind)
         self.store = _ws.recording_store(inner)
